@@ -26,6 +26,9 @@ def run(ck, tier):
     ck.rule("C11.sink-uniform", "both arms of LengthTracker::extend_offsets let `initial_offset` influence the offsets they push AND the total they return (appending "
             "to non-empty Rows); both UnionMode arms of decode_column consume the rows they were given", floor=len(stab))
     arms.check_sinks(ck, F, "C11.sink-uniform", stab)
+    from . import c11x
+    c11x.run_descending(ck, F)
+    c11x.run_type_ids(ck, F)
     ck.rule("C11.table-agreement", "every DataType constructor that supports_datatype definitely accepts is routed by Codec::new, row_lengths, encode_column and decode_column", floor=30)
     variants = dtm.enum_variants(F, "arrow_schema::datatype::DataType")
     cache = {}
